@@ -1720,8 +1720,15 @@ func (s *seq) compact() {
 	var err error
 	tsBefore := s.m.Ts()
 	seen := map[uint64]bool{tsBefore: true}
-	if s.conc && s.r.IntN(2) == 0 {
-		// background compaction while the writer proceeds
+	if s.r.IntN(2) == 0 {
+		// background compaction while the writer proceeds (both tiers: what a compaction stamps on the
+		// dumped index matters only when the writer moved on during the dump and the tree is reopened)
+		before := map[string]bool{}
+		if es, e := os.ReadDir(s.dir); e == nil {
+			for _, de := range es {
+				before[de.Name()] = true
+			}
+		}
 		done := make(chan struct{})
 		s.busy++
 		var panicked bool
@@ -1730,6 +1737,25 @@ func (s *seq) compact() {
 			defer close(done)
 			panicked, psig, ptext = fw.Guard(func() { ts, err = s.t.Compact() })
 		}()
+		// let the dump begin (its target folder appears) before writing; bounded, shapes the schedule only
+		if s.r.IntN(4) != 0 {
+		wait:
+			for i := 0; i < 4000; i++ {
+				select {
+				case <-done:
+					break wait
+				default:
+				}
+				if es, e := os.ReadDir(s.dir); e == nil {
+					for _, de := range es {
+						if !before[de.Name()] {
+							break wait
+						}
+					}
+				}
+				time.Sleep(25 * time.Microsecond)
+			}
+		}
 		n := 1 + s.r.IntN(4)
 		for i := 0; i < n && !s.dead.Load(); i++ {
 			runtime.Gosched()
